@@ -2,6 +2,7 @@
 package c14
 
 import (
+	stdlog "log"
 	"encoding/json"
 	"errors"
 	"fmt"
@@ -17,7 +18,7 @@ import (
 	"verif/harness/ev"
 )
 
-const rule = "cases = (destination kinds {plain io.Writer, LevelWriter, FilteredLevelWriter(level), SyncWriter around either, LevelWriterAdapter} x events with levels x per (destination,event) outcome {ok, error_i, short write}); exhaustive for <=3 destinations x <=2 events (<=3 in thorough) over 3 kinds, 3 levels, 3 outcomes; rapid for up to 8 destinations, 30 events, nested MultiLevelWriter; also a single failing writer without MultiLevelWriter, and an ErrorHandler that itself logs through a failing audit logger (each failed event, the audit event included, gets its own report). level 5 enters through Panic() (written and reported before it panics). oracle = fan-out model + ErrorHandler log. non-trivial = at least one failing destination that is not the last one; distinct by construction / FNV-64"
+const rule = "cases = (destination kinds {plain io.Writer, LevelWriter, FilteredLevelWriter(level), SyncWriter around either, LevelWriterAdapter} x events with levels x per (destination,event) outcome {ok, error_i, short write}); exhaustive for <=3 destinations x <=2 events (<=3 in thorough) over 3 kinds, 3 levels, 3 outcomes; rapid for up to 8 destinations, 30 events, nested MultiLevelWriter; also a single failing writer without MultiLevelWriter, and an ErrorHandler that itself logs through a failing audit logger (each failed event, the audit event included, gets its own report). level 5 enters through Panic() (written and reported before it panics), events without a level also through Logger.Write and a standard log.Logger. oracle = fan-out model + ErrorHandler log. non-trivial = at least one failing destination that is not the last one; distinct by construction / FNV-64"
 
 var rec = ev.New("C14", rule)
 
@@ -59,6 +60,9 @@ type Case struct {
 	// in it). None of the destinations is an io.Closer, so nothing is closed and every later event is
 	// delivered and reported as before
 	CloseAt int `json:"close_at,omitempty"`
+	// ViaWrite: events without a level (6) enter through Logger.Write, the io.Writer a standard library
+	// log.Logger or io.Copy writes to (odd events: through such a log.Logger): an event like any other
+	ViaWrite bool `json:"nolevel_via_logger_write,omitempty"`
 }
 
 // decoyW belongs to a fan-out nobody writes to.
@@ -327,6 +331,12 @@ func run(c *Case) (msg string, nontrivial bool) {
 				}()
 				l.Panic().Int("event", ei).Msg("m")
 				return
+			} else if lv == 6 && c.ViaWrite {
+				if ei%2 == 1 {
+					stdlog.New(l, "", 0).Printf("w%d", ei)
+				} else {
+					l.Write([]byte(fmt.Sprintf("w%d\n", ei)))
+				}
 			} else {
 				l.WithLevel(zerolog.Level(lv)).Int("event", ei).Msg("m")
 			}
@@ -338,6 +348,9 @@ func run(c *Case) (msg string, nontrivial bool) {
 		line := fmt.Sprintf("{\"level\":%q,\"event\":%d,\"message\":\"m\"}\n", zerolog.Level(lv).String(), ei)
 		if lv == 6 {
 			line = fmt.Sprintf("{\"event\":%d,\"message\":\"m\"}\n", ei)
+			if c.ViaWrite {
+				line = fmt.Sprintf("{\"message\":\"w%d\"}\n", ei)
+			}
 		}
 		if c.Direct {
 			line = fmt.Sprintf("direct line %d\n", ei)
@@ -586,9 +599,10 @@ func TestRapid(t *testing.T) {
 				c.Dests[0] = Dest{Kind: "multi", Sub: append([]Dest{inner}, genDests(rt, rapid.IntRange(0, 2).Draw(rt, "nouter"), 0, "outer")...)}
 			}
 		}
+		c.ViaWrite = rapid.Bool().Draw(rt, "viawrite")
 		ne := rapid.IntRange(1, 30).Draw(rt, "nev")
 		for i := 0; i < ne; i++ {
-			c.Levels = append(c.Levels, rapid.SampledFrom([]int{-1, 0, 1, 2, 3, 6, 9, 127, 5, 5}).Draw(rt, "lvl"))
+			c.Levels = append(c.Levels, rapid.SampledFrom([]int{-1, 0, 1, 2, 3, 6, 6, 9, 127, 5, 5}).Draw(rt, "lvl"))
 		}
 		if hasKind(c.Dests, "syslog") || hasKind(c.Dests, "syslog-cee") {
 			// the syslog adapters know the seven named levels and NoLevel only (anything else panics by design)
